@@ -1,6 +1,6 @@
 (* Entry points of the extracted checkers for tree cases. *)
 From RS Require Import Base.Prelude Base.Text Stream.Types Stream.Tree Api.ApiTree Checkers.ChkTree
-  Sem.ReplaceObj Checkers.ChkReplace Api.ApiHist Checkers.ChkHist Sem.Prov Checkers.ChkProv.
+  Sem.ReplaceObj Checkers.ChkReplace Api.ApiHist Checkers.ChkHist Sem.Prov Checkers.ChkProv Checkers.ChkCombined.
 
 Definition api_check_tree (prop : N) (s : src) (ws : list (N * wop)) (o : tree_obs) : N :=
   if prop =? 1 then chk_C01 s o
@@ -9,6 +9,7 @@ Definition api_check_tree (prop : N) (s : src) (ws : list (N * wop)) (o : tree_o
   else if prop =? 4 then chk_C04 s o
   else if prop =? 7 then chk_C07 s o
   else if prop =? 8 then chk_C08 s o
+  else if prop =? 9 then chk_C09 s o
   else if prop =? 11 then chk_C11 s o
   else 100.
 
